@@ -435,6 +435,19 @@ func genText(t *rapid.T) TextCase {
 			tc.MustFail = true
 		case 1:
 			n := swapCase(ms[idx].Name, rapid.IntRange(0, 3).Draw(t, "caseMode"))
+			// other near-miss names: emptied, first letter cut off, first letter only, a blank added, a dot added
+			switch rapid.IntRange(0, 9).Draw(t, "renameMode") {
+			case 0:
+				n = ""
+			case 1:
+				n = ms[idx].Name[1:]
+			case 2:
+				n = ms[idx].Name[:1]
+			case 3:
+				n = ms[idx].Name + " "
+			case 4:
+				n = "." + ms[idx].Name
+			}
 			tc.Mutation = "rename:" + ms[idx].Name + "->" + n
 			if n != ms[idx].Name {
 				tc.MustFail = true
@@ -574,7 +587,7 @@ func execText(c TextCase) (vh.Outcome, error) {
 func TestC05Text(t *testing.T) {
 	vh.Run(t, vh.Spec[TextCase]{
 		Property: "C05", Name: "TestC05Text",
-		Rule: "texts: 20% valid-by-construction (shuffled members, extra members, whitespace inside and around the object; must decode to the members' values), 50% encoder-shaped text with one required member deleted (also with its exact name still present as a string value, principal or nested key) / case-renamed / duplicated (same, conflicting, case variant) / retyped, or one member deleted while another one is present two or three times, 10% inconsistent-or-unsupported attribute sets, 10% other JSON values, 10% arbitrary bytes. Oracle on acceptance: version supported, all 11 exact required names among the top-level members (independent token walk), consistency rules, re-encodes to a fixed point; constructed-to-fail texts must be refused. Non-trivial: single-mutation texts; distinct by text hash.",
+		Rule: "texts: 20% valid-by-construction (shuffled members, extra members, whitespace inside and around the object; must decode to the members' values), 50% encoder-shaped text with one required member deleted (also with its exact name still present as a string value, principal or nested key) / renamed (other letter case, emptied, first letter cut off, first letter only, a blank or dot added) / duplicated (same, conflicting, case variant) / retyped, or one member deleted while another one is present two or three times, 10% inconsistent-or-unsupported attribute sets, 10% other JSON values, 10% arbitrary bytes. Oracle on acceptance: version supported, all 11 exact required names among the top-level members (independent token walk), consistency rules, re-encodes to a fixed point; constructed-to-fail texts must be refused. Non-trivial: single-mutation texts; distinct by text hash.",
 		Gen:  genText, Exec: execText,
 	})
 }
